@@ -157,6 +157,9 @@ def run(facts, rep, tier):
     nameeq(F, rep, chk)
     subspan(F, rep)
     coherent(F, rep, chk)
+    scopedepth(F, rep)
+    tyargidx(F, rep)
+    pass2type(F, rep)
 
     # ---- 6 ARGTYPES --------------------------------------------------------------------------------------
     cc = F.one_fn("check_call")
@@ -652,3 +655,176 @@ def expr_root_of_span(f, o):
     if flds and flds[-1] == "span":
         return (name, flds[:-1])
     return None
+
+
+# ---------------------------------------------------------------------------------------------------------------
+# SCOPEDEPTH: a binder and the body it scopes over live at the same scope depth
+# ---------------------------------------------------------------------------------------------------------------
+BINDER_FNS = ("check_function", "check_method_with_self_ty", "check_for_stmt", "check_match", "check_list_comp",
+              "check_dict_comp")
+_BODY = ("check_statement", "check_expr")
+_BIND = ("define", "check_pattern")
+
+
+def _scope_events(F, f, depth=2, _stack=()):
+    """-> (events [(block, kind, relative depth)], net delta) or None when the depth is not a function of the block.
+    kind: 'bind' (SymbolTable::define / check_pattern) or 'body' (check_statement / check_expr)."""
+    succs = f.succs()
+    din = {0: 0}
+    order = [0]
+    events = []
+    out_delta = None
+    summaries = {}
+    while order:
+        bi = order.pop()
+        d = din[bi]
+        t = f.term(bi)
+        nd = d
+        if t["t"] in ("call", "tailcall"):
+            n = callee_name(t) or ""
+            last = n.split("::")[-1]
+            if "SymbolTable" in n and last == "enter_scope":
+                nd = d + 1
+            elif "SymbolTable" in n and last == "exit_scope":
+                nd = d - 1
+            elif ("SymbolTable" in n and last == "define") or last == "check_pattern":
+                events.append((bi, "bind", d))
+            elif last in _BODY and "TypeChecker" in n:
+                events.append((bi, "body", d))
+            elif n in F.fns and n.startswith("incan::frontend::typechecker") and depth > 0 and n not in _stack \
+                    and n != f.path:
+                g = F.fns[n]
+                if any("SymbolTable" in (callee_name(t2) or "") and
+                       (callee_name(t2) or "").split("::")[-1] in ("enter_scope", "exit_scope")
+                       for _, t2 in g.calls()):
+                    if n not in summaries:
+                        summaries[n] = _scope_events(F, g, depth - 1, _stack + (f.path,))
+                    sm = summaries[n]
+                    if sm is None:
+                        return None
+                    for (_b, kind, rd) in sm[0]:
+                        events.append((bi, kind, d + rd))
+                    nd = d + sm[1]
+        if t["t"] == "return":
+            if out_delta is not None and out_delta != d:
+                return None
+            out_delta = d
+        for s2 in succs[bi]:
+            if s2 in din:
+                if din[s2] != nd and not f.blocks[s2].get("cleanup"):
+                    return None
+            else:
+                din[s2] = nd
+                order.append(s2)
+    return events, (out_delta or 0)
+
+
+def scopedepth(F, rep):
+    """SCOPEDEPTH - assignment resolves its target in the innermost scope only (lookup_local), so a binder (loop
+    variable, parameter, pattern binding, comprehension variable) and the body it scopes over must be checked at the
+    same scope depth; a body one scope further in treats `x = ...` on the binder as a fresh variable and never
+    compares the types."""
+    n = 0
+    for name in BINDER_FNS:
+        f = F.one_fn("TypeChecker>::" + name)
+        if not rep.anchor("SCOPEDEPTH", name, f):
+            continue
+        rep.functions.add(f.path)
+        r = _scope_events(F, f)
+        if r is None:
+            rep.note("SCOPEDEPTH", "%s: scope depth is path dependent; not decided" % name) \
+                if hasattr(rep, "note") else None
+            continue
+        events, _ = r
+        binds = [(b, d) for b, k, d in events if k == "bind"]
+        bodies = [(b, d) for b, k, d in events if k == "body"]
+        bad = None
+        for bb, bd in binds:
+            reach = f.reachable(bb)
+            for cb, cd in bodies:
+                if cb != bb and cb in reach and cd != bd and (bad is None):
+                    bad = (bd, cd, f.term(cb).get("ln"))
+        n += 1
+        ok = bad is None and bool(binds) and bool(bodies)
+        rep.oblige("SCOPEDEPTH", name, ok, sample={"rule": "SCOPEDEPTH", "fn": name, "binders": len(binds),
+                                                   "body_checks": len(bodies)})
+        if not ok:
+            msg = ("binds its names at scope depth +%d but checks the body at depth +%d" % (bad[0], bad[1])) if bad \
+                else "no binder / body check found"
+            rep.add(Finding("SCOPEDEPTH", "SCOPEDEPTH|%s" % name,
+                            "%s %s: an assignment to the bound name inside the body is resolved in the innermost "
+                            "scope only, so it introduces a fresh variable and its type is never compared with the "
+                            "binder's" % (name, msg), file=f.file, line=(bad[2] if bad else f.line), fn=f.path))
+    rep.floor("SCOPEDEPTH", "binder functions decided", n, 5)
+
+
+def tyargidx(F, rep):
+    """TYARGIDX - no built-in generic type has more than two type arguments (List/Set/Option/Frozen*[T], Dict[K, V],
+    Result[T, E]); a constant index of 2 or more into a list of ResolvedType always misses, which silently disables
+    the comparison it feeds (`.get(k)`) or panics (`[k]`)."""
+    n = 0
+    for p in sorted(F.fns):
+        if not p.startswith("incan::frontend::typechecker"):
+            continue
+        f = F.fns[p]
+        per = 0
+        for bi, t in f.calls():
+            g = callee_generic(t) or ""
+            inst = t["f"].get("inst", "") + t["f"].get("self", "")
+            if "ResolvedType" not in inst or "HashMap" in g:
+                continue
+            if not (g.endswith("::get") or g.endswith("Index::index")):
+                continue
+            ks = [o.get("c") for o in t["args"][1:] if isinstance(o, dict) and str(o.get("c", "")).endswith("_usize")]
+            if not ks:
+                continue
+            k = int(ks[0].split("_")[0])
+            n += 1
+            per += 1
+            ok = k <= 1
+            inst_id = "%s#%d" % (p.split("::")[-1], per)
+            rep.oblige("TYARGIDX", inst_id, ok)
+            if not ok:
+                rep.add(Finding("TYARGIDX", "TYARGIDX|%s|%d" % (p.split("::")[-1], k),
+                                "%s reads type argument %d of a generic type; no built-in generic has that many, so "
+                                "the lookup never succeeds and the type comparison it guards is skipped"
+                                % (p.split("::")[-1], k), file=f.file, line=t.get("ln"), fn=p))
+    rep.floor("TYARGIDX", "constant indices into type-argument lists", n, 30)
+
+
+def pass2type(F, rep):
+    """PASS2TYPE - the type a body is checked against (`set_return_type`) is resolved from the declaration's own
+    annotation in the second pass, when every declaration is in the symbol table. A type read back from the
+    first-pass symbol table can contain the `TypeVar` placeholder the collector stores for names it has not seen yet,
+    and a TypeVar is compatible with everything: every `return` in such a function is accepted."""
+    from engines import backward_slice
+    n = 0
+    for p in sorted(F.fns):
+        if not p.startswith("incan::frontend::typechecker"):
+            continue
+        f = F.fns[p]
+        for bi, t in f.calls():
+            cn = callee_name(t) or ""
+            if not cn.endswith("::set_return_type") or len(t["args"]) < 2:
+                continue
+            pl = op_place(t["args"][1])
+            if pl is None:
+                continue
+            n += 1
+            rep.functions.add(p)
+            _, calls, _ = backward_slice(f, [pl["l"]])
+            names = [callee_name(c) or callee_generic(c) or "" for _, c in calls]
+            resolved = any(x.split("::")[-1].split("<")[0] == "resolve_type" for x in names)
+            table = sorted({x.split("::")[-1] for x in names if "SymbolTable" in x})
+            ok = resolved and not table
+            inst = p.split("::")[-1]
+            rep.oblige("PASS2TYPE", inst, ok, sample={"rule": "PASS2TYPE", "fn": inst, "resolve_type": resolved,
+                                                      "symbol_table_reads": table})
+            if not ok:
+                rep.add(Finding("PASS2TYPE", "PASS2TYPE|%s" % inst,
+                                "%s checks the body against a return type %s: a first-pass signature holds TypeVar "
+                                "placeholders for types declared further down, and a TypeVar accepts every returned "
+                                "value" % (inst, ("read from the symbol table (%s)" % ", ".join(table)) if table
+                                           else "that is not resolved from the annotation"),
+                                file=f.file, line=t.get("ln"), fn=p))
+    rep.floor("PASS2TYPE", "set_return_type calls", n, 2)
